@@ -350,6 +350,13 @@ fn src_grammar(src: &str) -> (String, String, Option<String>) {
             let (g, sc) = random_rich_grammar(&mut rng, &format!("c15rich{k}"));
             ("rich".into(), serde_json::to_string(&g).unwrap(), sc)
         }
+        "wordop" => {
+            let seed: u64 = f[1].parse().unwrap();
+            let k: usize = f[2].parse().unwrap();
+            let mut rng = Rng::new(seed ^ 0x30D0 ^ (k as u64).wrapping_mul(0x9E37));
+            let sweep = if k >= 1000 { Some(k - 1000) } else { None };
+            ("wordop".into(), serde_json::to_string(&word_operator_grammar(&mut rng, &format!("c15wordop{k}"), k == 0, sweep).0).unwrap(), None)
+        }
         "lalr" => {
             let seed: u64 = f[1].parse().unwrap();
             let k: usize = f[2].parse().unwrap();
@@ -439,7 +446,7 @@ fn main() {
     }
 
     let mut rng = Rng::new(seed);
-    let (n_cfg, n_op, budget, nrandom, zoo_docs, n_rich, n_lalr) = if thorough { (1000, 100, 15000, 40, 60, 150, 100) } else { (40, 8, 1500, 8, 12, 14, 12) };
+    let (n_cfg, n_op, budget, nrandom, zoo_docs, n_rich, n_lalr, n_wordop) = if thorough { (1000, 100, 15000, 40, 60, 150, 100, 40) } else { (40, 8, 1500, 8, 12, 14, 12, 6) };
 
     if let Some(corpus) = zoo_corpus("c15") {
         for (i, line) in corpus.lines().enumerate() {
@@ -490,6 +497,38 @@ fn main() {
                 }
                 em.header(&name, "rich", &format!("rich:{seed}:{k}"), &p);
                 explore_docs_json(&mut em, &p, &name, &mut rng, zoo_docs);
+                npairs += 1;
+            }
+            Err(e) => {
+                rejected += 1;
+                eprintln!("{name}: {}", e.lines().next().unwrap_or(""));
+            }
+        }
+    }
+    // word token + keywords + look-alike operator tokens, > 64 / > 128 terminals (bitset word boundaries)
+    // k < 1000: random sizes; k = 1000 + i: the sweep over every offset modulo 64 (2 processes each)
+    let wordop_ids: Vec<usize> = (0..n_wordop).chain((0..64).map(|i| 1000 + i)).collect();
+    for k in wordop_ids {
+        let mut grng = Rng::new(seed ^ 0x30D0 ^ (k as u64).wrapping_mul(0x9E37));
+        let name = format!("c15wordop{k}");
+        let sweep = if k >= 1000 { Some(k - 1000) } else { None };
+        let (g, docs) = word_operator_grammar(&mut grng, &name, k == 0, sweep);
+        let json = serde_json::to_string(&g).unwrap();
+        match build_pair(&mut cu, &work, &name, &json, None, if sweep.is_some() { 2 } else { nproc }) {
+            Ok(p) => {
+                if !p.det_ok {
+                    nondet += 1;
+                }
+                em.header(&name, "wordop", &format!("wordop:{seed}:{k}"), &p);
+                let (mut pa, mut pb) = (Parser::new(), Parser::new());
+                pa.set_language(&p.lang_a).unwrap();
+                pb.set_language(&p.lang_b).unwrap();
+                for (i, d) in docs.iter().enumerate() {
+                    em.case(&format!("{name}-s{i}"), &mut pa, &mut pb, d.as_bytes(), None);
+                }
+                if sweep.is_none() {
+                    explore_docs_json(&mut em, &p, &name, &mut rng, zoo_docs);
+                }
                 npairs += 1;
             }
             Err(e) => {
